@@ -569,12 +569,65 @@ def sqlite_prepare(sql, case):
     return None
 
 
+# ---- enumerated family: a self-join written with ONE table object, its condition built by the library (on_field / using) --------------------
+
+def one_object_cases():
+    for cls in CTXS:
+        for base in ("select", "select_where", "update"):
+            for how in ("on_field", "on_field_two", "using"):
+                yield {"family": "one_object_self_join", "cls": cls, "base": base, "how": how}
+
+
+def check_one_object(case):
+    """Q.from_(t).join(t).on_field("k"): the second occurrence gets the automatic alias t2, and the condition the LIBRARY builds links the two
+    occurrences (t.k = t2.k) - a condition between an occurrence and itself would be a tautology"""
+    import pypika_tortoise as P
+
+    cls = case["cls"]
+    Q = prog.query_cls(cls)
+    t = P.Table("tp")
+    try:
+        if case["base"] == "update":
+            q = Q.update(t).set(t.v, 1)
+        else:
+            q = Q.from_(t).select(t.v)
+            if case["base"] == "select_where":
+                q = q.where(t.w == 1)
+        j = q.join(t)
+        q = j.using("k9") if case["how"] == "using" else (j.on_field("k9") if case["how"] == "on_field" else j.on_field("k9", "k8"))
+        sql = q.get_sql(prog.sql_context(cls))
+    except Exception as e:
+        if type(e).__module__.startswith("pypika_tortoise"):
+            return []
+        return [(mksig("any", "one_object_self_join", "raises", type(e).__name__), repr(e))]
+    if not sql:
+        return []
+    toks = lex.lex(sql, cls)
+    names = [i for i, tk in enumerate(toks) if tk.kind == "qid" and tk.value == "tp2" and not (i + 1 < len(toks) and toks[i + 1].text == ".")]
+    if len(names) != 1:
+        return [(mksig("any", "one_object_self_join", "alias_not_defined_once"), "the automatic alias tp2 is defined %d times in %r" % (len(names), sql))]
+    if case["how"] == "using":
+        return []
+    out = []
+    for col_ in (["k9"] if case["how"] == "on_field" else ["k9", "k8"]):
+        idx = [i for i, tk in enumerate(toks) if tk.kind == "qid" and tk.value == col_]
+        got = [qualifier_before(toks, i) for i in idx]
+        if sorted(map(str, got)) != ["tp", "tp2"]:
+            out.append((mksig("any", "one_object_self_join", "condition_links_an_occurrence_with_itself"), "on_field(%r) of a table joined to itself: the condition's qualifiers are %r, expected tp and tp2, in %r" % (col_, got, sql)))
+            break
+    return out
+
+
 def check_case(case):
+    if case.get("family") == "one_object_self_join":
+        return check_one_object(case)
     return [x for x in check_program(case) if x[0] != "__build__"]
 
 
 def valid_case(case):
     try:
+        if case.get("family") == "one_object_self_join":
+            return case in list(one_object_cases())
         ok = case["cls"] in CTXS and all(len(o) == 3 and (o[1] is None or o[1] in POOL) for o in case["occ"]) and all(s in POOL for s in case["sources"]) and case["kind"] in (
             "select", "insert", "insert_select", "upsert", "upsert_select", "update", "update_from", "update_join", "delete")
         if not ok:
@@ -628,6 +681,10 @@ def run_shard(shard):
     tier, sd = shard
     col = Collector()
     if tier == "combos":
+        for case in one_object_cases():
+            col.case(case, True, classes=("one_object_self_join",))
+            for sig, detail in check_one_object(case):
+                col.violation(sig, case, detail)
         for cls in CTXS:
             for combo in COMBOS:
                 case = combo_case(cls, combo)
